@@ -98,6 +98,8 @@ NoResultUnlessDone == st # "done" => res = -1
 \* the counting statements, evaluated for the bound of every reachable draw (all of 1..M-1)
 UniformAtEveryBound == st = "drawing" /\ rejects = 0 /\ got = 0 => Uniform(dn) /\ MoreThanHalf(dn)
 FibreFormulaSound == st = "drawing" /\ rejects = 0 /\ got = 0 /\ dn <= 40 => FibreSizeIsFibre(dn)
+\* above half the range every alternative has exactly one raw value (any unbiased sampler: c*n <= M forces c = 1) - DrawTrace's pair rule
+AboveHalfOnePreimage == st = "drawing" /\ rejects = 0 /\ got = 0 /\ 2 * dn > M => \A r \in 0..(dn-1) : FibreSize(dn, r) = 1
 BoundToProofs == st = "drawing" => ThresholdIsTheProvedOne(dn)
 PowerOfTwoNeverRejects == rejects > 0 => ~IsPow2(dn)
 \* a rejected word leaves a fresh draw state: same bound, nothing of the word kept
